@@ -137,6 +137,8 @@ def install(plan):
             _logf.flush()
         if kind == "SIGKILL":
             os.kill(os.getpid(), signal.SIGKILL)
+        elif kind == "SIGTERM":
+            os.kill(os.getpid(), signal.SIGTERM)
         elif kind == "SIGSEGV":
             faulthandler.disable()
             os.kill(os.getpid(), signal.SIGSEGV)
